@@ -14,6 +14,8 @@ package bebop
 //@ define clean(tr *tokenReader) bool = forall i int :: 0 <= i && i < len(tr.errs) ==> !errIs(tr.errs[i].err, io.EOF)
 // Token shapes the parser relies on when it slices comment tokens: "//..." and "/*...*/".
 //@ define wfKC(kind tokenKind, concrete []byte) bool = (kind == tokenKindLineComment ==> len(concrete) >= 2) && (kind == tokenKindBlockComment ==> len(concrete) >= 4)
+// progress measure of the parser: two per byte the finite input still holds, one for a kept-back token
+//@ define prog(tr *tokenReader) int = 2*ghost("left", tr.r) + ite(tr.keepNextToken, 1, 0)
 //@ define okTR(tr *tokenReader) bool = tr != nil && tr.r != nil && tr.tree != nil && (ghost("ioerr", tr.r) == 1 ==> len(tr.errs) > 0) && clean(tr) && wfKC(tr.nextToken.kind, tr.nextToken.concrete) && ghost("left", tr.r) >= 0 && !tr.tree.isTerminal && !tr.optionalSemicolons
 
 // step(tr): what every tokenizer step (find, the token builders, whitespace skipping, identifiers) does to the
@@ -220,8 +222,8 @@ package bebop
 //@   ensures [NODROP] len(tr.errs) >= old(len(tr.errs)) && (forall i int :: 0 <= i && i < old(len(tr.errs)) ==> tr.errs[i].err == old(tr.errs[i].err))
 //@   ensures [ATEOF] (!result && len(tr.errs) == 0) ==> ghost("ateof", tr.r) == 1
 // progress: a token costs at least one byte of the (finite) input, or the one kept-back token
-//@   ensures [PROGRESS] result ==> 2*ghost("left", tr.r) + ite(tr.keepNextToken, 1, 0) < 2*old(ghost("left", tr.r)) + ite(old(tr.keepNextToken), 1, 0)
-//@   ensures [PROGRESS] 2*ghost("left", tr.r) + ite(tr.keepNextToken, 1, 0) <= 2*old(ghost("left", tr.r)) + ite(old(tr.keepNextToken), 1, 0)
+//@   ensures [PROGRESS] result ==> prog(tr) < old(prog(tr))
+//@   ensures [PROGRESS] prog(tr) <= old(prog(tr))
 //@   modifies tr.errs, tr.keepNextToken, tr.loc.lineChar, tr.loc.line, tr.nextToken, tr.lastToken, ghost("canunread", tr.r), ghost("ateof", tr.r), ghost("ioerr", tr.r), ghost("left", tr.r), ghost("lastread", tr.r), fresh(locError), fresh(byte), any(string), tr(), hw(), alloc()
 
 // ---- the parser (parse.go) -----------------------------------------------------------------------
@@ -237,12 +239,14 @@ package bebop
 //@   modifies fresh(), any(string), alloc()
 
 //@ func (*tokenReader).Token
-//@   requires tr != nil && wfKC(tr.nextToken.kind, tr.nextToken.concrete)
+//@   requires tr != nil && wfKC(tr.nextToken.kind, tr.nextToken.concrete) && !tr.optionalSemicolons
+//@   ensures tr.keepNextToken == old(tr.keepNextToken)
 //@   ensures wfKC(result.kind, result.concrete) && wfKC(tr.nextToken.kind, tr.nextToken.concrete)
 //@   modifies tr.keepNextToken, tr.lastToken, fresh(), alloc(), tr(), hw()
 
 //@ func (*tokenReader).UnNext
 //@   requires tr != nil
+//@   ensures tr.keepNextToken
 //@   modifies tr.keepNextToken
 
 // Pure helpers: they only build strings.
@@ -266,12 +270,20 @@ package bebop
 //@   ensures bitsize == 8 || bitsize == 16 || bitsize == 32 || bitsize == 64
 //@   modifies nothing
 
+// The bit-flag expression parser and evaluator work on the token slice they are given and on the enum options
+// read so far; they have no access to the tokenizer (assumed frame; they are not under contract, see C15).
+//@ assume-func parseBitflagExpr
+//@   modifies fresh(), any(string), alloc()
+//@ assume-func evaluateBitflagExpr
+//@   modifies fresh(), any(string), alloc()
+
 //@ func readError
 //@   ensures result != nil
 //@   modifies fresh(), any(string), alloc()
 
 //@ func expectAnyOfNext
 //@   requires okTR(tr)
+//@   ensures [PROG] prog(tr) <= old(prog(tr)) && (result == nil ==> prog(tr) <= old(prog(tr)) - 1)
 //@   ensures [IOREC] ghost("ioerr", tr.r) == 1 ==> len(tr.errs) > 0
 //@   ensures [CLEAN] clean(tr)
 //@   ensures [TOK] wfKC(tr.nextToken.kind, tr.nextToken.concrete)
@@ -280,6 +292,8 @@ package bebop
 //@   modifies tr.errs, tr.keepNextToken, tr.loc.lineChar, tr.loc.line, tr.nextToken, tr.lastToken, ghost("canunread", tr.r), ghost("ateof", tr.r), ghost("ioerr", tr.r), ghost("left", tr.r), ghost("lastread", tr.r), fresh(), any(string), tr(), hw(), alloc()
 //@ func expectNext
 //@   requires okTR(tr)
+//@   ensures [PROG] prog(tr) <= old(prog(tr)) && (result1 == nil ==> prog(tr) <= old(prog(tr)) - len(kinds))
+//@   invariant loop 1: prog(tr) <= old(prog(tr)) - it(1)
 //@   invariant loop 1: tr != nil && tr.r != nil && tr.tree != nil && tr.r == old(tr.r) && tr.tree == old(tr.tree) && ghost("left", tr.r) >= 0 && !tr.tree.isTerminal && !tr.optionalSemicolons
 //@   invariant loop 1: ghost("ioerr", tr.r) == 1 ==> len(tr.errs) > 0
 //@   invariant loop 1: clean(tr)
@@ -292,6 +306,7 @@ package bebop
 //@   modifies tr.errs, tr.keepNextToken, tr.loc.lineChar, tr.loc.line, tr.nextToken, tr.lastToken, ghost("canunread", tr.r), ghost("ateof", tr.r), ghost("ioerr", tr.r), ghost("left", tr.r), ghost("lastread", tr.r), fresh(), any(string), tr(), hw(), alloc()
 //@ func optNewline
 //@   requires okTR(tr)
+//@   ensures [PROG] prog(tr) <= old(prog(tr)) + 1
 //@   ensures [IOREC] ghost("ioerr", tr.r) == 1 ==> len(tr.errs) > 0
 //@   ensures [CLEAN] clean(tr)
 //@   ensures [TOK] wfKC(tr.nextToken.kind, tr.nextToken.concrete)
@@ -299,6 +314,7 @@ package bebop
 //@   modifies tr.errs, tr.keepNextToken, tr.loc.lineChar, tr.loc.line, tr.nextToken, tr.lastToken, ghost("canunread", tr.r), ghost("ateof", tr.r), ghost("ioerr", tr.r), ghost("left", tr.r), ghost("lastread", tr.r), fresh(), any(string), tr(), hw(), alloc()
 //@ func readEnumOptionValue
 //@   requires okTR(tr)
+//@   ensures [PROG] result2 == nil ==> prog(tr) <= old(prog(tr))
 //@   ensures [IOREC] ghost("ioerr", tr.r) == 1 ==> len(tr.errs) > 0
 //@   ensures [CLEAN] clean(tr)
 //@   ensures [TOK] wfKC(tr.nextToken.kind, tr.nextToken.concrete)
@@ -306,6 +322,9 @@ package bebop
 //@   modifies tr.errs, tr.keepNextToken, tr.loc.lineChar, tr.loc.line, tr.nextToken, tr.lastToken, ghost("canunread", tr.r), ghost("ateof", tr.r), ghost("ioerr", tr.r), ghost("left", tr.r), ghost("lastread", tr.r), fresh(), any(string), tr(), hw(), alloc()
 //@ func readUntil
 //@   requires okTR(tr)
+//@   ensures [PROG] prog(tr) <= old(prog(tr))
+//@   invariant loop 1: prog(tr) <= old(prog(tr))
+//@   decreases loop 1: prog(tr)
 //@   invariant loop 1: tr != nil && tr.r != nil && tr.tree != nil && tr.r == old(tr.r) && tr.tree == old(tr.tree) && ghost("left", tr.r) >= 0 && !tr.tree.isTerminal && !tr.optionalSemicolons
 //@   invariant loop 1: ghost("ioerr", tr.r) == 1 ==> len(tr.errs) > 0
 //@   invariant loop 1: clean(tr)
@@ -317,6 +336,9 @@ package bebop
 //@   modifies tr.errs, tr.keepNextToken, tr.loc.lineChar, tr.loc.line, tr.nextToken, tr.lastToken, ghost("canunread", tr.r), ghost("ateof", tr.r), ghost("ioerr", tr.r), ghost("left", tr.r), ghost("lastread", tr.r), fresh(), any(string), tr(), hw(), alloc()
 //@ func readEnum
 //@   requires okTR(tr)
+//@   ensures [PROG] result1 == nil ==> prog(tr) <= old(prog(tr))
+//@   invariant loop 1: prog(tr) <= old(prog(tr))
+//@   decreases loop 1: prog(tr)
 //@   invariant loop 1: tr != nil && tr.r != nil && tr.tree != nil && tr.r == old(tr.r) && tr.tree == old(tr.tree) && ghost("left", tr.r) >= 0 && !tr.tree.isTerminal && !tr.optionalSemicolons
 //@   invariant loop 1: ghost("ioerr", tr.r) == 1 ==> len(tr.errs) > 0
 //@   invariant loop 1: clean(tr)
@@ -328,6 +350,7 @@ package bebop
 //@   modifies tr.errs, tr.keepNextToken, tr.loc.lineChar, tr.loc.line, tr.nextToken, tr.lastToken, ghost("canunread", tr.r), ghost("ateof", tr.r), ghost("ioerr", tr.r), ghost("left", tr.r), ghost("lastread", tr.r), fresh(), any(string), tr(), hw(), alloc()
 //@ func readDeprecated
 //@   requires okTR(tr)
+//@   ensures [PROG] result1 == nil ==> prog(tr) <= old(prog(tr)) - 4
 //@   ensures [IOREC] ghost("ioerr", tr.r) == 1 ==> len(tr.errs) > 0
 //@   ensures [CLEAN] clean(tr)
 //@   ensures [TOK] wfKC(tr.nextToken.kind, tr.nextToken.concrete)
@@ -335,6 +358,9 @@ package bebop
 //@   modifies tr.errs, tr.keepNextToken, tr.loc.lineChar, tr.loc.line, tr.nextToken, tr.lastToken, ghost("canunread", tr.r), ghost("ateof", tr.r), ghost("ioerr", tr.r), ghost("left", tr.r), ghost("lastread", tr.r), fresh(), any(string), tr(), hw(), alloc()
 //@ func skipEndOfLineComments
 //@   requires okTR(tr)
+//@   ensures [PROG] prog(tr) <= old(prog(tr))
+//@   invariant loop 1: prog(tr) <= old(prog(tr))
+//@   decreases loop 1: prog(tr)
 //@   invariant loop 1: tr != nil && tr.r != nil && tr.tree != nil && tr.r == old(tr.r) && tr.tree == old(tr.tree) && ghost("left", tr.r) >= 0 && !tr.tree.isTerminal && !tr.optionalSemicolons
 //@   invariant loop 1: ghost("ioerr", tr.r) == 1 ==> len(tr.errs) > 0
 //@   invariant loop 1: clean(tr)
@@ -346,6 +372,9 @@ package bebop
 //@   modifies tr.errs, tr.keepNextToken, tr.loc.lineChar, tr.loc.line, tr.nextToken, tr.lastToken, ghost("canunread", tr.r), ghost("ateof", tr.r), ghost("ioerr", tr.r), ghost("left", tr.r), ghost("lastread", tr.r), fresh(), any(string), tr(), hw(), alloc()
 //@ func readStruct
 //@   requires okTR(tr)
+//@   ensures [PROG] result1 == nil ==> prog(tr) <= old(prog(tr))
+//@   invariant loop 1: prog(tr) <= old(prog(tr))
+//@   decreases loop 1: prog(tr)
 //@   invariant loop 1: tr != nil && tr.r != nil && tr.tree != nil && tr.r == old(tr.r) && tr.tree == old(tr.tree) && ghost("left", tr.r) >= 0 && !tr.tree.isTerminal && !tr.optionalSemicolons
 //@   invariant loop 1: ghost("ioerr", tr.r) == 1 ==> len(tr.errs) > 0
 //@   invariant loop 1: clean(tr)
@@ -357,6 +386,13 @@ package bebop
 //@   modifies tr.errs, tr.keepNextToken, tr.loc.lineChar, tr.loc.line, tr.nextToken, tr.lastToken, ghost("canunread", tr.r), ghost("ateof", tr.r), ghost("ioerr", tr.r), ghost("left", tr.r), ghost("lastread", tr.r), fresh(), any(string), tr(), hw(), alloc()
 //@ func readFieldType
 //@   requires okTR(tr)
+//@   ensures [PROG] result1 == nil ==> prog(tr) <= old(prog(tr)) - 1
+// the loop over trailing "[]" runs after the type and one more token were taken
+//@   invariant loop 1: prog(tr) <= old(prog(tr)) - 2
+//@   decreases loop 1: prog(tr)
+//@   assert before "keyType, err := readFieldType(tr)": [RECTERM] prog(tr) < old(prog(tr))
+//@   assert before "valType, err := readFieldType(tr)": [RECTERM] prog(tr) < old(prog(tr))
+//@   assert before "arType, err := readFieldType(tr)": [RECTERM] prog(tr) < old(prog(tr))
 //@   invariant loop 1: tr != nil && tr.r != nil && tr.tree != nil && tr.r == old(tr.r) && tr.tree == old(tr.tree) && ghost("left", tr.r) >= 0 && !tr.tree.isTerminal && !tr.optionalSemicolons
 //@   invariant loop 1: ghost("ioerr", tr.r) == 1 ==> len(tr.errs) > 0
 //@   invariant loop 1: clean(tr)
@@ -368,6 +404,9 @@ package bebop
 //@   modifies tr.errs, tr.keepNextToken, tr.loc.lineChar, tr.loc.line, tr.nextToken, tr.lastToken, ghost("canunread", tr.r), ghost("ateof", tr.r), ghost("ioerr", tr.r), ghost("left", tr.r), ghost("lastread", tr.r), fresh(), any(string), tr(), hw(), alloc()
 //@ func readMessage
 //@   requires okTR(tr)
+//@   ensures [PROG] result1 == nil ==> prog(tr) <= old(prog(tr))
+//@   invariant loop 1: prog(tr) <= old(prog(tr))
+//@   decreases loop 1: prog(tr)
 //@   invariant loop 1: tr != nil && tr.r != nil && tr.tree != nil && tr.r == old(tr.r) && tr.tree == old(tr.tree) && ghost("left", tr.r) >= 0 && !tr.tree.isTerminal && !tr.optionalSemicolons
 //@   invariant loop 1: ghost("ioerr", tr.r) == 1 ==> len(tr.errs) > 0
 //@   invariant loop 1: clean(tr)
@@ -379,6 +418,9 @@ package bebop
 //@   modifies tr.errs, tr.keepNextToken, tr.loc.lineChar, tr.loc.line, tr.nextToken, tr.lastToken, ghost("canunread", tr.r), ghost("ateof", tr.r), ghost("ioerr", tr.r), ghost("left", tr.r), ghost("lastread", tr.r), fresh(), any(string), tr(), hw(), alloc()
 //@ func readUnion
 //@   requires okTR(tr)
+//@   ensures [PROG] result1 == nil ==> prog(tr) <= old(prog(tr))
+//@   invariant loop 1: prog(tr) <= old(prog(tr))
+//@   decreases loop 1: prog(tr)
 //@   invariant loop 1: tr != nil && tr.r != nil && tr.tree != nil && tr.r == old(tr.r) && tr.tree == old(tr.tree) && ghost("left", tr.r) >= 0 && !tr.tree.isTerminal && !tr.optionalSemicolons
 //@   invariant loop 1: ghost("ioerr", tr.r) == 1 ==> len(tr.errs) > 0
 //@   invariant loop 1: clean(tr)
@@ -390,6 +432,7 @@ package bebop
 //@   modifies tr.errs, tr.keepNextToken, tr.loc.lineChar, tr.loc.line, tr.nextToken, tr.lastToken, ghost("canunread", tr.r), ghost("ateof", tr.r), ghost("ioerr", tr.r), ghost("left", tr.r), ghost("lastread", tr.r), fresh(), any(string), tr(), hw(), alloc()
 //@ func readConst
 //@   requires okTR(tr)
+//@   ensures [PROG] result2 == nil ==> prog(tr) <= old(prog(tr))
 //@   ensures [IOREC] ghost("ioerr", tr.r) == 1 ==> len(tr.errs) > 0
 //@   ensures [CLEAN] clean(tr)
 //@   ensures [TOK] wfKC(tr.nextToken.kind, tr.nextToken.concrete)
@@ -397,6 +440,7 @@ package bebop
 //@   modifies tr.errs, tr.keepNextToken, tr.loc.lineChar, tr.loc.line, tr.nextToken, tr.lastToken, ghost("canunread", tr.r), ghost("ateof", tr.r), ghost("ioerr", tr.r), ghost("left", tr.r), ghost("lastread", tr.r), fresh(), any(string), tr(), hw(), alloc()
 //@ func readOpCode
 //@   requires okTR(tr)
+//@   ensures [PROG] result1 == nil ==> prog(tr) <= old(prog(tr)) - 1
 //@   ensures [IOREC] ghost("ioerr", tr.r) == 1 ==> len(tr.errs) > 0
 //@   ensures [CLEAN] clean(tr)
 //@   ensures [TOK] wfKC(tr.nextToken.kind, tr.nextToken.concrete)
@@ -404,6 +448,7 @@ package bebop
 //@   modifies tr.errs, tr.keepNextToken, tr.loc.lineChar, tr.loc.line, tr.nextToken, tr.lastToken, ghost("canunread", tr.r), ghost("ateof", tr.r), ghost("ioerr", tr.r), ghost("left", tr.r), ghost("lastread", tr.r), fresh(), any(string), tr(), hw(), alloc()
 //@ func readBitflagExpr
 //@   requires okTR(tr)
+//@   ensures [PROG] result2 == nil ==> prog(tr) <= old(prog(tr))
 //@   ensures [IOREC] ghost("ioerr", tr.r) == 1 ==> len(tr.errs) > 0
 //@   ensures [CLEAN] clean(tr)
 //@   ensures [TOK] wfKC(tr.nextToken.kind, tr.nextToken.concrete)
@@ -414,6 +459,7 @@ package bebop
 // (success) the tokenizer holds no error, the reader has not failed, and it is at the end of its input.
 //@ func ReadFile
 //@   invariant loop 1: okTR(tr)
+//@   decreases loop 1: prog(tr)
 //@   assert before "return f, warnings, err": [ERRRET] err != nil
 //@   assert before "return f, warnings, nil": [CONSUMED] len(tr.errs) == 0 && ghost("ioerr", tr.r) != 1 && ghost("ateof", tr.r) == 1
 // C11, pending-attribute discipline of the top-level loop: what "[opcode(...)]", "[flags]", "readonly" and the
